@@ -251,3 +251,17 @@ func (k *XKey) Derive(path []uint32) (*XKey, error) {
 	}
 	return cur, nil
 }
+
+// HardenedChildScalar computes only the private scalar of the hardened child i of k (no curve operation),
+// for cheap searches over many indices.  ok=false when the index yields no valid key.
+func (k *XKey) HardenedChildScalar(i uint32) (ki *big.Int, ok bool) {
+	data := append(append([]byte{0}, ser256(k.Priv)...), ser32(i)...)
+	I := hmac512(k.Chain, data)
+	il := new(big.Int).SetBytes(I[:32])
+	if il.Cmp(curve.N) >= 0 {
+		return nil, false
+	}
+	ki = new(big.Int).Add(il, k.Priv)
+	ki.Mod(ki, curve.N)
+	return ki, ki.Sign() != 0
+}
